@@ -37,6 +37,7 @@ type verifAssets struct {
 	lookups     []assets.FlowUUID
 	topics      *flows.TopicAssets
 	users       *flows.UserAssets
+	resthooks   *flows.ResthookAssets
 }
 
 func (a *verifAssets) Topics() *flows.TopicAssets {
